@@ -208,6 +208,12 @@ func (p *PathMatcher) doIndexSeq(rn *RNode) (*RNode, error) {
 
 // doSeq iterates over a sequence and appends elements matching the path regex to p.Val
 func (p *PathMatcher) doSeq(rn *RNode) (*RNode, error) {
+	return p.doSeqCreating(rn, true)
+}
+
+// doSeqCreating is doSeq; mayCreate is false for the search that is repeated
+// after an element has been created.
+func (p *PathMatcher) doSeqCreating(rn *RNode, mayCreate bool) (*RNode, error) {
 	// parse the field + match pair
 	var err error
 	p.field, p.matchRegex, err = SplitIndexNameValue(p.Path[0])
@@ -231,6 +237,11 @@ func (p *PathMatcher) doSeq(rn *RNode) (*RNode, error) {
 	if !IsCreate(p.Create) || p.val != nil {
 		return p.val, nil
 	}
+	if !mayCreate {
+		// the pattern does not match the element created from it (e.g. "x^"):
+		// creating another one would go on for ever
+		return nil, errors.Errorf("the element created for %q is not matched by it", p.Path[0])
+	}
 
 	var elem *yaml.Node
 	valueNode := NewScalarRNode(p.matchRegex).YNode()
@@ -247,7 +258,7 @@ func (p *PathMatcher) doSeq(rn *RNode) (*RNode, error) {
 		return nil, errors.WrapPrefixf(err, "failed to create element for %q", p.Path[0])
 	}
 	// re-do the sequence search; this time we'll find the element we just created
-	return p.doSeq(rn)
+	return p.doSeqCreating(rn, false)
 }
 
 func (p *PathMatcher) visitPrimitiveElem(elem *RNode) error {
